@@ -22,4 +22,22 @@ PROPS = {
             "gherkin tag-expression parser (a third of the expressions go through it)",
         ],
     },
+    "C17": {
+        "module": "Cuke.Props.C17",
+        "namespace": "Cuke.C17",
+        "families": [("match.find", 6000, 400000)],
+        "modelled_not_verified": [
+            "regex crate: captures_read / capture_names are oracle columns (whole match, per-group participation and text, names)",
+            "Ord of (HashableRegex, Option<Location>) is used by the harness to number the keys (model sorts by that number)",
+            "std HashMap: modelled as an association list with distinct keys iterated in arbitrary order (theorems quantify over the order)",
+        ],
+    },
+    "C18": {
+        "module": "Cuke.Props.C18",
+        "namespace": "Cuke.C18",
+        "families": [("retry.resolve", 4000, 300000)],
+        "modelled_not_verified": [
+            "humantime::parse_duration (oracle table for every parenthesised substring of every tag)",
+        ],
+    },
 }
